@@ -11,9 +11,12 @@
         -> fixed_point_is_shortest_path, fixed_point_unreachable_withdrawn
     * reached within a bounded number of exchanges from ANY state (hence after any loss sequence)
         -> converges_within_rounds
+    * after any link or router loss the tables re-converge to the shortest paths of the remaining topology
+        -> reconverges_after_loss (dead-neighbour checks make the state fit what is left), links_can_be_added
 -/
 import NdnVerif.C18.LemmasSP
 import NdnVerif.C18.LemmasConv
+import NdnVerif.C18.LemmasLoss
 namespace Ndn.C18
 
 /-- the regenerated constant is the protocol's infinity metric -/
@@ -168,6 +171,36 @@ theorem converges_within_rounds (g : Graph) (net : Net) (ok : NetOK g net)
     NetOK g (net.run rounds.flatten) ∧ IsFixedPoint g (net.run rounds.flatten) :=
   converges ok rounds hal hcov hn
 
+/-! ### loss and re-addition of links / routers -/
+
+/-- After ANY set of links is lost (a lost router = all its links), once every router that lost a
+    neighbour has run its dead-neighbour check for it (in any order; `lost` may list the removed links
+    several times), any 16 fair rounds over the REMAINING topology `g'` end in a state that fits `g'`
+    and is a fixed point of it: by `fixed_point_is_shortest_path` / `fixed_point_unreachable_withdrawn`
+    the costs are the hop distances of what is left and destinations that became unreachable are
+    withdrawn.  `NbrCover` (a neighbour state exists for every next hop in use) is an invariant of all
+    exchanges and dead checks, so losses, re-additions and convergence phases can be chained. -/
+theorem reconverges_after_loss (g g' : Graph) (net : Net) (ok : NetOK g net) (cov : NbrCover net)
+    (sub : ∀ u w, g'.adj u w → g.adj u w) (lost : List (Nat × Nat))
+    (hl : ∀ e ∈ lost, g.adj e.1 e.2) (hlost : ∀ u w, g.adj u w → ¬ g'.adj u w → (u, w) ∈ lost)
+    (rounds : List (List Exchange)) (hal : ∀ r ∈ rounds, Along g' r) (hcov : ∀ r ∈ rounds, Covers g' r)
+    (hn : 16 ≤ rounds.length) :
+    NetOK g' ((net.deads lost).run rounds.flatten) ∧ IsFixedPoint g' ((net.deads lost).run rounds.flatten) ∧
+    NbrCover ((net.deads lost).run rounds.flatten) := by
+  obtain ⟨ok', cov'⟩ := refit ok cov sub lost hl hlost
+  have hc := converges ok' rounds hal hcov hn
+  have hal' : Along g' rounds.flatten := by
+    intro e he
+    obtain ⟨r, hr, her⟩ := List.mem_flatten.1 he
+    exact hal r hr e her
+  exact ⟨hc.1, hc.2, (run_fit rounds.flatten ok' cov' hal').2⟩
+
+/-- Links between existing routers can come (back) at any time: the state still fits the larger
+    topology, so `converges_within_rounds` applies to it. -/
+theorem links_can_be_added (g g2 : Graph) (net : Net) (ok : NetOK g net) (sub : ∀ u w, g.adj u w → g2.adj u w)
+    (valid : ∀ u w, g2.adj u w → u < net.length ∧ w < net.length ∧ u ≠ w) : NetOK g2 net :=
+  fit_mono ok sub valid
+
 /-! ### non-vacuity: a concrete network meets every hypothesis above -/
 
 /-- 4 routers: triangle 0-1-2 with tail 2-3 -/
@@ -190,6 +223,33 @@ example : ∃ net, NetOK exGraph net ∧ IsFixedPoint exGraph net :=
     (fun r hr e he => by rw [List.eq_of_mem_replicate hr] at he; exact he)
     (fun r hr u w ha => by rw [List.eq_of_mem_replicate hr]; exact ha)
     (by simp)⟩
+
+/-- the tail link 2-3 is lost: hypotheses of `reconverges_after_loss` for the converged example network -/
+def exGraph' : Graph := { adj := fun u w => (u, w) ∈ [(0, 1), (1, 0), (1, 2), (2, 1), (0, 2), (2, 0)] }
+
+example : ∃ net, NetOK exGraph net ∧ NbrCover net ∧ (∀ u w, exGraph'.adj u w → exGraph.adj u w) ∧
+    (∀ e ∈ [(2, 3), (3, 2)], exGraph.adj e.1 e.2) ∧
+    (∀ u w, exGraph.adj u w → ¬ exGraph'.adj u w → (u, w) ∈ [(2, 3), (3, 2)]) := by
+  refine ⟨(Net.start exIds).run exRound, ?_, ?_, ?_, ?_, ?_⟩
+  · exact (run_fit exRound exStart_ok (start_cover exIds) (fun e he => he)).1
+  · exact (run_fit exRound exStart_ok (start_cover exIds) (fun e he => he)).2
+  · intro u w h
+    simp only [exGraph', List.mem_cons, Prod.mk.injEq, List.mem_nil_iff, or_false] at h
+    simp only [exGraph, exRound, List.mem_cons, Prod.mk.injEq, List.mem_nil_iff, or_false]
+    omega
+  · intro e he
+    simp only [List.mem_cons, List.mem_nil_iff, or_false] at he
+    rcases he with rfl | rfl <;> simp [exGraph, exRound]
+  · intro u w h hn
+    simp only [exGraph, exRound, List.mem_cons, Prod.mk.injEq, List.mem_nil_iff, or_false] at h
+    simp only [exGraph', List.mem_cons, Prod.mk.injEq, List.mem_nil_iff, or_false] at hn
+    simp only [List.mem_cons, Prod.mk.injEq, List.mem_nil_iff, or_false]
+    omega
+
+/-- after the loss router 3 is alone: routers 0..2 withdraw it (16 rounds of counting to infinity) -/
+example : let net := ((Net.start exIds).run (exRound ++ exRound ++ exRound)).deads [(2, 3), (3, 2)]
+    let net' := net.run (List.replicate 16 [(0, 1), (1, 0), (1, 2), (2, 1), (0, 2), (2, 0)]).flatten
+    (net'.advertOf 0).map (·.dest) = [40, 10, 30] ∧ (net'.advertOf 3).map (·.dest) = [20] := by decide
 
 /-- router 3 (key 20) reaches router 0 (key 40) at cost 2 via router 2 (key 30); router 0 reaches
     router 2 directly although router 1 has the smaller key (cost decides before the key) -/
